@@ -118,7 +118,7 @@ func scanSpaceToken(buf string, pos int) Token {
 			i = end - pos + 2
 		}
 		if isStringAt(buf, pos+i, "//") {
-			for ; !isCharAt(buf, pos+i, '\n'); i++ {
+			for ; pos+i < len(buf) && !isCharAt(buf, pos+i, '\n'); i++ {
 			}
 		}
 	}
